@@ -11,7 +11,7 @@ from .c01 import KIND
 from . import c04
 
 MUTATORS = {"insert", "remove", "refine", "reverse", "transpose", "flip", "set_ctrlpts", "set_weights", "scale_weights", "translate", "scale",
-            "sample_size", "sample_size_dir"}
+            "sample_size", "sample_size_dir", "edit_ctrlpts", "edit_ctrlptsw"}
 
 
 def views_of(sh):
@@ -91,7 +91,7 @@ def check_case(ctx, cs, defs):
     last = hist[-1]
     reads_before = sorted({s["v"] for s in hist[:-1] if s["a"] == "read"})
     tg = [kind, "rational" if sh0["rat"] else "nonrational", "mutator=" + last["a"]] + ["read_before=" + v for v in reads_before]
-    small = {"kind": kind, "rat": sh0["rat"], "hist": [{k: v for k, v in s.items() if k in ("a", "v", "prm", "num", "d", "u", "r", "dens", "k", "n", "f")} for s in hist]}
+    small = {"kind": kind, "rat": sh0["rat"], "hist": [{k: v for k, v in s.items() if k in ("a", "v", "prm", "num", "d", "u", "r", "dens", "k", "n", "f", "i")} for s in hist]}
     cls = ("NURBS." if sh0["rat"] else "BSpline.") + kind.capitalize()
     site = "%s.%s" % (cls, last["a"])
     ctx.count(c04.hist_key(cs), sample=small)
